@@ -103,7 +103,8 @@ fn main() {
          assignment with conversion, PRINT with ; and , DATA/READ, IF/ELSEIF/ELSE, SELECT CASE with simple/IS/range lists, FOR with \
          constant / negative / run-time computed STEP, WHILE, DO top/bottom WHILE/UNTIL; nesting <= 3; a third of the programs with one \
          injected run-time fault: division by zero, overflow, READ past DATA, zero STEP) + the core-language programs of the repository's \
-         own tests; each run on the real implementation and on the reference semantics; compared: stdout bytes and outcome (normal, or \
+         own tests + the directed families boundary-arith (+ - * and unary minus at the ends of the INTEGER / LONG ranges) and \
+         bare-condition (a bare LONG / SINGLE / DOUBLE literal or variable as the condition of every conditional construct); each run on the real implementation and on the reference semantics; compared: stdout bytes and outcome (normal, or \
          error code + row + col). class = (construct set, outcome kind); non-trivial = at least one loop or branch.",
     );
     let thorough = rep.is_thorough();
